@@ -75,6 +75,7 @@ def run(clause_fns, argv=None):
     ap.add_argument("--out", required=True)
     ap.add_argument("--focus", default="")
     ap.add_argument("--replay", default="")
+    ap.add_argument("--only-focus", action="store_true")
     a = ap.parse_args(argv)
     focus = [x.split(".")[-1].split("[")[0] for x in a.focus.split(",") if x]
     replay = json.loads(a.replay) if a.replay else None
@@ -82,6 +83,8 @@ def run(clause_fns, argv=None):
     t0 = time.time()
     for name, kind, bound, function, budget, fn in clause_fns:
         if replay is not None and replay.get("clause") != name:
+            continue
+        if a.only_focus and not (focus and any(f and f in (function + " " + name) for f in focus)):
             continue
         cl = Clause(name, kind, bound, function)
         cl.tier, cl.seed = a.tier, a.seed
